@@ -13,6 +13,7 @@ import (
 	"github.com/anishathalye/porcupine"
 
 	"go.pennock.tech/tabular"
+	"go.pennock.tech/tabular/auto"
 	"go.pennock.tech/tabular/texttable"
 	"go.pennock.tech/tabular/texttable/decoration"
 
@@ -163,11 +164,26 @@ func checkSeq(c Case) *ev.Violation {
 			} else if g != "" {
 				return ev.V("step %d: a table set to the never-registered name %q rendered (corner %q)", i+1, name, g)
 			}
+		case "styles":
+			// another package builds on the listing: it may append to and sort what it was handed
+			ls := auto.ListStyles()
+			if !sort.StringsAreSorted(ls) {
+				return ev.V("step %d: auto.ListStyles is not sorted: %v", i+1, ls)
+			}
 		case "list":
+			// the listing handed out belongs to the caller: scribbling on it must not affect the registry
+			l := decoration.RegisteredDecorationNames()
+			l = append(l, "zzzz-appended-by-caller", "aaaa-appended-by-caller")
+			sort.Strings(l)
+			for k := range l {
+				if k%2 == 0 {
+					l[k] = "scribbled-by-caller"
+				}
+			}
 		}
 		// the listing is compared after list operations and after the last step (the registry only grows,
 		// so a listing costs more with every case run in this process)
-		if op.K == "list" || i == len(c.Ops)-1 {
+		if op.K == "list" || op.K == "styles" || i == len(c.Ops)-1 {
 			want := map[string]bool{}
 			for n := range model {
 				want[n] = true
@@ -428,6 +444,16 @@ func checkUnknown(c Case) *ev.Violation {
 		}
 		tt := texttable.New()
 		tt.AddHeaders("h").AddRowItems("x")
+		// whatever the table was set to before (nothing, a known name, an explicit decoration), an unknown name fails closed
+		switch len(name) % 3 {
+		case 1:
+			if _, err := tt.SetDecorationNamed(decoration.D_UTF8_LIGHT); err != nil {
+				return ev.V("SetDecorationNamed of a built-in failed: %v", err)
+			}
+			tt.Render()
+		case 2:
+			tt.SetDecoration(decoration.ASCIIBoxSimple())
+		}
 		ret, err := tt.SetDecorationNamed(name)
 		if err == nil {
 			return ev.V("SetDecorationNamed(%q) of an unknown name returned no error", name)
